@@ -102,7 +102,7 @@ def addressed(residues, sfx, own):
 def run(ctx):
     common.check_obligations(ctx, THEOREMS)
     rng = ctx.rng
-    n = 6000 if ctx.thorough() else 800
+    n = 40000 if ctx.thorough() else 800
     terms, defs = [], []
     ev = 0
     hist = {}
